@@ -398,3 +398,93 @@ Definition shape_mismatches (ls : list (list (reg * N))) : list (N * N) :=
   | l :: _ => [(0, lenN (filter (fun p => wf_shape (fst p) (snd p)) l))]
   | [] => []
   end.
+
+(** ** which accesses panic (stated independently of the register contents;
+    RegProofs2 proves that these predicates are exact for every state) *)
+
+Definition emu_oob (r : reg) (nb lane : N) : bool :=
+  match r with
+  | RS i => S_LEN <? i * 4 + nb
+  | RV i => V_LEN <? lane * 256 * 4 + i * 4 + nb
+  | _ => false
+  end.
+
+(** ReadReg / ReadOperandBytes *)
+Definition emu_read_panics (r : reg) (cnt lane : N) : bool :=
+  match r with
+  | RS _ | RV _ => emu_oob r (num_bytes r cnt) lane     (* operand runs over the end of the file *)
+  | RExecLo => 3 <=? cnt
+  | RExecHi => 2 <=? cnt
+  | ROther => true                                       (* register not implemented *)
+  | _ => false
+  end.
+
+(** ReadOperand *)
+Definition emu_readu_panics (r : reg) (cnt lane : N) : bool :=
+  match r with
+  | RS _ | RV _ => emu_oob r (if 2 <=? cnt then 8 else 4) lane
+  | RExecHi => 2 <=? cnt
+  | ROther => true
+  | _ => false
+  end.
+
+(** WriteReg / WriteOperandBytes with [len] bytes of data *)
+Definition emu_write_panics (r : reg) (cnt lane len : N) : bool :=
+  match r with
+  | RS _ | RV _ => emu_oob r (num_bytes r cnt) lane
+  | RScc => len =? 0
+  | RVcc | RExec => len <? 8
+  | RVccLo | RVccHi => if cnt <=? 1 then len <? 4 else len <? 8
+  | RExecLo => if cnt =? 2 then len <? 8 else if cnt <=? 1 then len <? 4 else true
+  | RExecHi => if cnt <=? 1 then len <? 4 else true
+  | RM0 => len <? 4
+  | ROther => true
+  end.
+
+Definition emu_panics (a : api) (r : reg) (cnt lane : N) : bool :=
+  match a with
+  | ARead _ => emu_read_panics r cnt lane
+  | AReadU => emu_readu_panics r cnt lane
+  | AWrite data => emu_write_panics r cnt lane (lenN data)
+  | AWriteU _ => (8 <? num_bytes r cnt) || emu_write_panics r cnt lane (num_bytes r cnt)   (* data[:numBytes] of an 8-byte slice *)
+  | AReset => false
+  end.
+
+Definition timing_oob (st : tstate) (w : N) (r : reg) (cnt lane : N) : bool :=
+  let wv := t_waves st w in
+  let size := 4 * (if cnt =? 0 then 1 else cnt) in
+  match r with
+  | RS i => t_slen st <? i * 4 + soff wv + size
+  | RV i => negb (simd wv <? t_nsimd st) || (t_vlen st <? i * 4 + lane * t_bpl st + voff wv + size)
+  | _ => false
+  end.
+
+Definition timing_read_panics (st : tstate) (w : N) (r : reg) (cnt lane : N) : bool :=
+  match r with
+  | RS _ | RV _ => timing_oob st w r cnt lane
+  | ROther => true
+  | _ => false
+  end.
+
+Definition timing_write_panics (st : tstate) (w : N) (r : reg) (cnt lane len : N) : bool :=
+  match r with
+  | RS _ | RV _ => (len <? 4 * (if cnt =? 0 then 1 else cnt)) || timing_oob st w r cnt lane
+  | RScc => len =? 0
+  | RM0 => len <? 4
+  | ROther => true
+  | _ => negb ((2 <=? cnt) || (8 <=? len)) && (len <? 4)      (* vcc, exec and their halves *)
+  end.
+
+Definition timing_reset_panics (st : tstate) (w : N) : bool :=
+  let wv := t_waves st w in
+  ((0 <? nvgpr wv) && (negb (simd wv <? t_nsimd st) || existsb (fun i => t_vlen st <? voff wv + t_bpl st * i) (nseq 64)))
+  || ((0 <? nsgpr wv) && (t_slen st <? soff wv)).
+
+Definition timing_panics (st : tstate) (a : acc) : bool :=
+  let w := a_w a in let r := a_reg a in let cnt := a_cnt a in let lane := a_lane a in
+  match a_api a with
+  | ARead _ | AReadU => timing_read_panics st w r cnt lane
+  | AWrite data => timing_write_panics st w r cnt lane (lenN data)
+  | AWriteU _ => (8 <? num_bytes r cnt) || timing_write_panics st w r cnt lane (num_bytes r cnt)
+  | AReset => timing_reset_panics st w
+  end.
